@@ -30,5 +30,9 @@ PJ(projectZO) PJ(projectNO) PJ(project) PJ(unProjectZO) PJ(unProjectNO) PJ(unPro
 // with model = identity and a general matrix PM as projection (the product proj*model is what the functions use)
 #define PJ1(NAME, FN) ENTRY(NAME) { auto o = in_vec<3, TY>(c, 0); glm::mat<4, 4, TY> m(TY(1)); auto p = in_mat<4, 4, TY>(c, 2); auto vp = in_vec<4, TY>(c, 3); out_vec(c, glm::FN(o, m, p, vp)); }
 PJ1(projectZO_m1, projectZO) PJ1(projectNO_m1, projectNO) PJ1(unProjectZO_m1, unProjectZO) PJ1(unProjectNO_m1, unProjectNO)
+// integer viewports (the documented `U` may be an integer type): the viewport enters only through static_cast<T>(viewport[i])
+#define PJI(NAME, FN) ENTRY(NAME) { auto o = in_vec<3, TY>(c, 0); auto m = in_mat<4, 4, TY>(c, 1); auto p = in_mat<4, 4, TY>(c, 2); auto vp = in_vec<4, typename S::i32>(c, 3); out_vec(c, glm::FN(o, m, p, vp)); }
+PJI(projectZO_ivp, projectZO) PJI(projectNO_ivp, projectNO) PJI(unProjectZO_ivp, unProjectZO) PJI(unProjectNO_ivp, unProjectNO)
+ENTRY(pickMatrix_ivp) { auto ctr = in_vec<2, TY>(c, 0); auto d = in_vec<2, TY>(c, 1); auto vp = in_vec<4, typename S::i32>(c, 2); out_mat(c, glm::pickMatrix(ctr, d, vp)); }
 ENTRY(pickMatrix) { auto ctr = in_vec<2, TY>(c, 0); auto d = in_vec<2, TY>(c, 1); auto vp = in_vec<4, TY>(c, 2); out_mat(c, glm::pickMatrix(ctr, d, vp)); }
 VT_MAIN("C08")
